@@ -46,7 +46,7 @@ def covered_leaves():
         for t in m['tests']:
             covers = re.findall(r'fn (\w+)', ' '.join(re.findall(r'^// covers %s:(.*)' % t, m['text'], re.M)))
             tp = re.findall(r'\bC\d\d\b', ' '.join(re.findall(r'^// props %s:([^\n(]*)' % t, m['text'], re.M))) or m['props']
-            for fn in covers:
+            for fn in (covers or [t[len('leaf_'):]]):
                 out.setdefault((m['target'], fn), set()).update(tp)
     return out
 
